@@ -21,6 +21,7 @@ from .w_client import clean_exc
 UTC = datetime.timezone.utc
 NICK = "mybank"
 NICK2 = "otherbank"        # a nickname that neither the FI database nor the pre-existing user file knows
+NICK2_TWIN = "MyBank"      # ... or knows only in another letter case
 LIBDIR = simfs.ROOT + "/lib"
 CFGFILE = simfs.ROOT + "/cfg/ofxtools/ofxget.cfg"
 PASSWORD = "pw-S3CRET-Zq9"
@@ -135,9 +136,12 @@ class OfxgetWorld:
         self.nontrivial = False
         self.fis = {}
         self.nick = NICK                # nickname of the run being prepared / judged
-        self.section_exists = {NICK: True, NICK2: False}   # fi.cfg always has [mybank]
-        self.fidbs = {NICK: {}, NICK2: {}}
-        self.user_models = {NICK: {}, NICK2: {}}      # what each user section should currently yield
+        # the second nickname has no section anywhere; half the time it is the first one in another letter case
+        # (section names are case-sensitive: "MyBank" is not "mybank")
+        self.nick2 = [NICK2, NICK2_TWIN][ch.pick("cfg.nick2", 2)]
+        self.section_exists = {NICK: True, self.nick2: False}   # fi.cfg always has [mybank]
+        self.fidbs = {NICK: {}, self.nick2: {}}
+        self.user_models = {NICK: {}, self.nick2: {}}      # what each user section should currently yield
         self.default_clientuid = None
         self.user_default = {}          # non-clientuid options in the user's [DEFAULT] section
         self.home_down = False
@@ -933,7 +937,7 @@ def drive(world, tier):
         # most runs are for one server nickname; some for a second one that starts without any section
         # (only when the user's [DEFAULT] section holds nothing but the CLIENTUID: how other [DEFAULT] options
         #  apply to a nickname without a section is not stated by the property)
-        world.nick = NICK2 if (focus == "C18" and not world.user_default and ch.flag("run.other_nick", 0.2)) else NICK
+        world.nick = world.nick2 if (focus == "C18" and not world.user_default and ch.flag("run.other_nick", 0.2)) else NICK
         if focus == "C18":
             cmd = ["stmt", "prof", "stmtend", "acctinfo", "tax1099"][ch.weighted("run.cmd", [12, 4, 2, 2, 1])]
         else:
@@ -950,7 +954,7 @@ def drive(world, tier):
                 p = 0.35        # the one option with a generated default and a [DEFAULT]-section life of its own
             if ch.flag("cli." + opt, p):
                 cli[opt] = True if opt in BOOLS else world.draw_value(opt, "cli")
-        if (n == 0 or (world.nick == NICK2 and null(world.user_model.get("url")))) and "url" not in cli \
+        if (n == 0 or (world.nick == world.nick2 and null(world.user_model.get("url")))) and "url" not in cli \
                 and ch.flag("cli.url.first", 0.7 if world.nick == NICK else 0.95):
             cli["url"] = world.draw_value("url", "cli")
         write = ch.flag("cli.write", 0.45 if focus == "C18" else 0.2)
